@@ -341,6 +341,42 @@ def check_drop(ctx: Context, rep, rule: str) -> None:
                "forever (it waits in recv)")
 
 
+def check_channels(ctx: Context, rep, rule: str) -> None:
+    rep.rule(
+        rule,
+        "the per-worker channels are unbounded std::sync::mpsc::channel()s: "
+        "send never blocks, which the refill in next() and the stop messages "
+        "in Drop rely on (a rendezvous / bounded channel makes Drop's "
+        "send(None) wait for a worker that is itself waiting to deliver its "
+        "result -> deadlock on early drop)")
+    fn = ctx.rust.fn(PM, "ThreadCommunication::new_pair")
+    ctors = [n for n in walk(fn.body) if kind(n, "Call") and
+             "channel" in norm(text(n["func"]))]
+    rep.ob(rule, len(ctors) == 2, loc=fn.loc(), where=fn.qualname
+           if hasattr(fn, "qualname") else fn.qual,
+           construct=f"{len(ctors)} channel constructions",
+           message="one channel per direction")
+    for c in ctors:
+        f = norm(text(c["func"]))
+        base = f.split("::<")[0]
+        rep.ob(rule, base.endswith("mpsc::channel") or base == "channel",
+               loc=fn.loc(c), where=fn.qual, construct=f,
+               message="unbounded asynchronous channel (sync_channel / "
+               "bounded channels block the sender)")
+    # field types
+    for rel, items in ctx.rust.files.items():
+        for it in items or []:
+            if it.get("k") == "Struct" and it.get("name") == "ThreadCommunication":
+                for fld in it["fields"]:
+                    if fld["name"] == "send":
+                        rep.ob(rule, "SyncSender" not in fld["ty"],
+                               loc=f"{rel}:{it['line']}",
+                               where="ThreadCommunication",
+                               construct=f"send: {norm(fld['ty'])}",
+                               message="the sending half is an unbounded "
+                               "Sender")
+
+
 # ---------------------------------------------------------------------------
 def check_cursor(ctx: Context, rep, rule: str) -> None:
     rep.rule(
